@@ -393,6 +393,43 @@ func (x *N) OkE12LazyMap(id int, l *L) {
 	x.lazy[id] = l
 }
 
+// ---- E13 waited channel replaced
+type W struct {
+	sync.Mutex
+	q     chan int
+	sizeQ chan struct{}
+}
+
+func NewW() *W { return &W{q: make(chan int, 1), sizeQ: make(chan struct{})} }
+
+func (x *W) Wait() int {
+	for {
+		x.Lock()
+		q, z := x.q, x.sizeQ
+		x.Unlock()
+		select {
+		case v := <-q:
+			return v
+		case <-z:
+		}
+	}
+}
+
+func (x *W) BadE13Resize(n int) {
+	x.Lock()
+	x.q = make(chan int, n)
+	x.Unlock()
+}
+
+func (x *W) OkE13Resize(n int) {
+	x.Lock()
+	x.q = make(chan int, n)
+	old := x.sizeQ
+	x.sizeQ = make(chan struct{})
+	x.Unlock()
+	close(old)
+}
+
 // ---- round-8 rules: requeue, publish order, complete read
 type Q struct {
 	q     chan *mangos.Message
@@ -534,6 +571,7 @@ func runSelfTests(verifDir string) SelfTestResult {
 		publishOrder(p, r8, "publish", self)
 		completeReadFatal(p, r8, "read", self)
 		nilSafe(p, r8, "e12", "self-test", func(fn *ssa.Function) bool { rel, _ := p.FuncRel(fn); return rel == selfTestRel })
+		waitedChannelStable(p, r8, "e13", self)
 		for _, o := range r8.Obs {
 			if o.Status == Discharged {
 				continue
@@ -571,8 +609,9 @@ func runSelfTests(verifDir string) SelfTestResult {
 		"BadE12Stop":             "e12",
 		"BadE12AfterClear":       "e12",
 		"BadE12LazyMap":          "e12",
+		"BadE13Resize":           "e13",
 	}
-	silent := []string{"okE1Defer", "OkE3Read", "OkE3bRecheck", "OkCondWait", "OkE5Once", "OkE5UniqueThenWrite", "OkE6d", "OkE6dRange", "SetN", "Close", "NewT", "OkE5Loop", "OkBufferBeforeFree", "OkE11Closed", "OkE11StoredFirst", "OkForward", "OkPublish", "OkFullRead", "Arm", "OkE12Stop", "OkE12Helper", "peerReady", "OkE12Companion", "OkE12Map", "OkE12LazyMap"}
+	silent := []string{"okE1Defer", "OkE3Read", "OkE3bRecheck", "OkCondWait", "OkE5Once", "OkE5UniqueThenWrite", "OkE6d", "OkE6dRange", "SetN", "Close", "NewT", "OkE5Loop", "OkBufferBeforeFree", "OkE11Closed", "OkE11StoredFirst", "OkForward", "OkPublish", "OkFullRead", "Arm", "OkE12Stop", "OkE12Helper", "peerReady", "OkE12Companion", "OkE12Map", "OkE12LazyMap", "OkE13Resize", "NewW", "Wait"}
 	var names []string
 	for k := range want {
 		names = append(names, k)
